@@ -9,8 +9,12 @@ Model of block notarization at one miner (C31): `chaincore/chain/protocol_block.
 `ProcessVerifiedTicket`, `notarizationProcess` → `MergeNotarization`, `handleNotarizedBlockMessage`,
 `checkBlockNotarization` → `AddNotarizedBlock`).
 
-A ticket is `(verifier, signature)`; verifiers `0 … n−1` are the miners of the round's magic block (public keys `pks`),
-any other number is a foreign id. The message point of a block (hash-to-curve of its hash) is `h`.
+A ticket is `(verifier, signature, encoding)`: verifiers are numbers — `pks[v]` is the key of node `v` when the process
+knows such a node; the miners of a round are the pool of the magic block in force for that round (`pools[slot]`, a block
+belongs to the round of its `slot`), every other number is foreign *for that round* (a node of another magic block, a
+non-miner). `enc` tags the textual encoding of the signature (lower/upper-case hex …): the real code compares
+signature *strings* where it keys a map by signature (the round's ticket store), and curve points where it verifies.
+The message point of a block (hash-to-curve of its hash) is `h`.
 `VerifyTickets` is the aggregate check of `Model/Agg` in one batch, after the membership test of each verifier.
 Not modelled: stake mode of `reachedNotarization`, network, timers, state computation of the block
 (`AddNotarizedBlock` records the block in the round's notarized list before it computes state), magic-block presence
@@ -25,23 +29,26 @@ variable {F : Type} [Add F] [Mul F] [Sub F] [Div F] [Zero F] [One F] [DecidableE
 structure Ticket (F : Type) where
   verifier : Nat
   sig : F
+  enc : Nat := 0
 deriving DecidableEq
 
 /-- a block as the node holds it. -/
 structure Blk (F : Type) where
   id : Nat
   gen : Nat                   -- the generator (its rank in the round decides `RoundRank`)
+  slot : Nat := 0             -- which round (and hence which magic block) the block belongs to
   h : F                       -- message point of the block hash
   tickets : List (Ticket F)   -- `b.VerificationTickets`
   notarized : Bool            -- `b.isNotarized`
 
 structure Node (F : Type) where
-  pks : List F                               -- miners of the magic block
-  threshold : Nat                            -- `GetNotarizationThresholdCount(n)`
+  pks : List F                               -- public keys of the nodes the process knows, by number
+  pools : List (List Nat)                    -- the miner pool of the magic block in force for the round of each slot
+  thresholds : List Nat                      -- `GetNotarizationThresholdCount(pool size)` per slot
   blocks : List (Blk F)                      -- blocks known to the chain (`mc.GetBlock`)
   store : List (Nat × Ticket F)              -- the round's verified tickets (`r.verificationTickets`, keyed by signature)
   roundNotarized : List Nat                  -- the round's notarized blocks
-  complete : Bool                            -- the round's phase is past verification (`IsVerificationComplete`)
+  complete : List Nat                        -- slots whose round is past verification (`IsVerificationComplete`)
 
 def Node.block? (nd : Node F) (id : Nat) : Option (Blk F) := nd.blocks.find? (·.id == id)
 
@@ -49,23 +56,27 @@ def Node.setBlock (nd : Node F) (b : Blk F) : Node F :=
   if nd.blocks.any (·.id == b.id) then { nd with blocks := nd.blocks.map (fun x => if x.id == b.id then b else x) }
   else { nd with blocks := nd.blocks ++ [b] }
 
-def Node.pk? (nd : Node F) (v : Nat) : Option F := nd.pks[v]?
+/-- `c.GetMiners(round).GetNode(id)`: membership in the pool of the ROUND's magic block. -/
+def Node.pk? (nd : Node F) (slot : Nat) (v : Nat) : Option F :=
+  if (nd.pools.getD slot []).contains v then nd.pks[v]? else none
+
+def Node.threshold (nd : Node F) (slot : Nat) : Nat := nd.thresholds.getD slot 0
 
 /-- `VerifyTickets(blockHash, bvts)`: every verifier must be a miner (first failure ends the call), then the aggregate
 check; `none` = empty list (the scheme is created with batch size 0: division by zero inside a goroutine). -/
-def verifyTickets (nd : Node F) (h : F) (ts : List (Ticket F)) : Option Bool :=
+def verifyTickets (nd : Node F) (slot : Nat) (h : F) (ts : List (Ticket F)) : Option Bool :=
   if ts.isEmpty then none
-  else if ts.all (fun t => (nd.pk? t.verifier).isSome) then
-    let items := ts.filterMap (fun t => (nd.pk? t.verifier).map (fun pk => (⟨pk, h, t.sig⟩ : AggItem F)))
+  else if ts.all (fun t => (nd.pk? slot t.verifier).isSome) then
+    let items := ts.filterMap (fun t => (nd.pk? slot t.verifier).map (fun pk => (⟨pk, h, t.sig⟩ : AggItem F)))
     some (decide (aggSig items = aggPair items))
   else some false
 
 /-- `reachedNotarization` (count mode). -/
-def reached (nd : Node F) (ts : List (Ticket F)) : Bool := decide (nd.threshold ≤ ts.length)
+def reached (nd : Node F) (slot : Nat) (ts : List (Ticket F)) : Bool := decide (nd.threshold slot ≤ ts.length)
 
 /-- `UpdateBlockNotarization`. -/
 def updateNotarization (nd : Node F) (b : Blk F) : Blk F :=
-  if b.notarized then b else if reached nd b.tickets then { b with notarized := true } else b
+  if b.notarized then b else if reached nd b.slot b.tickets then { b with notarized := true } else b
 
 /-- `Block.MergeVerificationTickets`: union by verifier id, existing order kept; an empty list on either side returns the
 other side unchanged (no de-duplication inside it). -/
@@ -84,11 +95,12 @@ def unknownTickets (b : Blk F) (ts : List (Ticket F)) : List (Ticket F) :=
     if acc.2.contains t.verifier then acc else (acc.1 ++ [t], acc.2 ++ [t.verifier]))
     ([], b.tickets.map (·.verifier))).1
 
-/-- `VerifyNotarization(hash, bvt, round)`: no duplicate verifier, threshold reached, tickets verify. -/
-def verifyNotarization (nd : Node F) (h : F) (ts : List (Ticket F)) : Bool :=
+/-- `VerifyNotarization(hash, bvt, round)`: no verifier ID twice (whatever the signatures), threshold reached,
+tickets verify. -/
+def verifyNotarization (nd : Node F) (slot : Nat) (h : F) (ts : List (Ticket F)) : Bool :=
   if hasDupNat (ts.map (·.verifier)) then false
-  else if !reached nd ts then false
-  else (verifyTickets nd h ts).getD false
+  else if !reached nd slot ts then false
+  else (verifyTickets nd slot h ts).getD false
 where
   hasDupNat : List Nat → Bool
     | [] => false
@@ -96,9 +108,11 @@ where
 
 def Node.storeFor (nd : Node F) (id : Nat) : List (Ticket F) := (nd.store.filter (·.1 == id)).map (·.2)
 
-/-- `Round.AddVerificationTickets`: the map is keyed by the signature string. -/
+/-- `Round.AddVerificationTickets`: the map is keyed by the signature STRING (signature and its encoding). (The map is
+per round; stored tickets are verified, so equal signatures for blocks of different rounds do not occur and one list
+serves all rounds.) -/
 def Node.storeAdd (nd : Node F) (id : Nat) (t : Ticket F) : Node F :=
-  { nd with store := (nd.store.filter (fun e => e.2.sig ≠ t.sig)) ++ [(id, t)] }
+  { nd with store := (nd.store.filter (fun e => !(decide (e.2.sig = t.sig) && decide (e.2.enc = t.enc)))) ++ [(id, t)] }
 
 /-- `Chain.addBlock` (under `AddBlock` / `AddRoundBlock`): a second object of a known block has its tickets merged into
 the chain's copy **without verification** (`c.MergeVerificationTickets(eb, b.GetVerificationTickets())`, which also
@@ -118,9 +132,9 @@ def Node.addNotarizedToRound (nd : Node F) (id : Nat) : Node F :=
   | some b =>
     if nd.roundNotarized.contains id then nd
     else
-      let others := nd.roundNotarized.filter (fun j => ((nd.block? j).map (·.gen)) != some b.gen)
+      let others := nd.roundNotarized.filter (fun j => ((nd.block? j).map (fun x => (x.slot, x.gen))) != some (b.slot, b.gen))
       let nd1 := nd.setBlock { b with notarized := true }
-      { nd1 with roundNotarized := others ++ [id], complete := true }
+      { nd1 with roundNotarized := others ++ [id], complete := nd1.complete ++ [b.slot] }
 
 /-- `checkBlockNotarization`: only a block whose flag is set is added to the round. -/
 def Node.noteNotarized (nd : Node F) (b : Blk F) : Node F :=
@@ -131,7 +145,7 @@ collected tickets are merged into it, **its own tickets are not verified**, and 
 reaches `Chain.addBlock` (directly when it counts as notarized, through `AddToRoundVerification` otherwise). Once a block
 of the round was notarized (`round.AddNotarizedBlock` moves the phase to `Share`) further proposals are ignored. -/
 def processVerifyBlock (nd : Node F) (b : Blk F) : Node F :=
-  if nd.complete then nd else   -- "received block for round with finished verification phase"
+  if nd.complete.contains b.slot then nd else   -- "received block for round with finished verification phase"
   let b1 := { b with tickets := mergeTickets b.tickets (nd.storeFor b.id) }
   let b2 := updateNotarization nd b1
   let (nd1, cb) := nd.addBlock b2
@@ -142,8 +156,8 @@ def know (nd : Node F) (b : Blk F) : Node F := (nd.addBlock b).1
 
 /-- `handleVerificationTicketMessage`: the single ticket is verified; for a chain block `ProcessVerifiedTicket`, otherwise
 it is kept in the round. -/
-def handleTicket (nd : Node F) (id : Nat) (h : F) (t : Ticket F) : Node F :=
-  if (verifyTickets nd h [t]).getD false then
+def handleTicket (nd : Node F) (id : Nat) (slot : Nat) (h : F) (t : Ticket F) : Node F :=
+  if (verifyTickets nd slot h [t]).getD false then
     match nd.block? id with
     | none => nd.storeAdd id t
     | some b =>
@@ -165,8 +179,8 @@ def handleNotarization (nd : Node F) (id : Nat) (ts : List (Ticket F)) : Node F 
     else
       let vts := unknownTickets b ts
       if vts.isEmpty then
-        if verifyNotarization nd b.h b.tickets then nd.addNotarizedToRound id else nd
-      else if (verifyTickets nd b.h vts).getD false then
+        if verifyNotarization nd b.slot b.h b.tickets then nd.addNotarizedToRound id else nd
+      else if (verifyTickets nd b.slot b.h vts).getD false then
         let b2 := updateNotarization nd { b with tickets := mergeTickets b.tickets vts }
         let nd1 := nd.setBlock b2
         if b2.notarized then nd1.addNotarizedToRound id else nd1
@@ -175,7 +189,7 @@ def handleNotarization (nd : Node F) (id : Nat) (ts : List (Ticket F)) : Node F 
 /-- `handleNotarizedBlockMessage`: the block's own tickets go through `VerifyNotarization`; then `AddRoundBlock` and
 `AddNotarizedBlock`. -/
 def handleNotarizedBlock (nd : Node F) (nb : Blk F) : Node F :=
-  if verifyNotarization nd nb.h nb.tickets then
+  if verifyNotarization nd nb.slot nb.h nb.tickets then
     let (nd1, _) := nd.addBlock nb
     nd1.addNotarizedToRound nb.id
   else nd
